@@ -24,6 +24,13 @@ package main
 // `switch`/`case`/`end`; an `if` without else whose body is one return statement is printed on one line,
 // `if h => return ...`.  The body of a function literal follows the line of the statement it occurs in,
 // between `func [key](params)` and `end func`.
+//
+// What is deliberately NOT normalised: the order of two emitted statements (where a statement stands in the
+// body is what a whole-body fact pins; the analyses in analyses.go are order-insensitive where the order cannot
+// matter: reduce statements among themselves, dropped statements, literal fields, flag sets), and equivalent
+// control-flow shapes (`if c { return a }; return b` against `if c { return a } else { return b }`).  Such an
+// edit moves the skeleton: the tie theorem fails by name and the check reports `no-failing-input-found`
+// unless its search finds a failing input.
 
 import (
 	"go/ast"
